@@ -12,8 +12,9 @@
    switch (dt[0])  's' sparse  'd' dense  'u' user  default err   v2_density   / V2E_data_type
    switch (dt[1])  'r' real    'c' complex          default err   v2_real      / V2E_data_structure
    switch (dt[2])  'q' 'i' 'f'                      default err   v2_ctype     / V2E_coeff_type
-   token; !token || !sscanf (token, "%ld", &prec) -> err          scan_int     / V2E_precision
-   prec *= LOG2_10  (long *= double: truncation toward zero)      prec_bits
+   token; !token || !sscanf (token, "%ld", &prec) -> err          scan_long    / V2E_precision
+   prec *= LOG2_10  (long -> double, double product, truncation   prec_bits (CIntModel.v)
+                     toward zero back to long)
    token; !token || !sscanf (token, "%d", &s->n) || s->n < 0      scan_int, n <? 0 / V2E_degree
    if (density == USER) return user polynomial of degree n        V2_user n
    dense:  n+1 coefficients, reader by coefficient type           read_dense
@@ -24,8 +25,9 @@
    i: one token through mpq_set_str + mpq_canonicalize   f: one token through mpf_set_str
    poly->prec = prec
 
-   What is modelled and not verified: sscanf's %d / %ld by [scan_int] (optional sign, digits, rest of
-   the token ignored; no overflow), GMP's readers as in PolModel.v. *)
+   What is modelled and not verified: sscanf's %d / %ld by [scan_int] / [scan_long] (optional sign,
+   digits, rest of the token ignored; %ld saturates at LONG_MAX / LONG_MIN, %d keeps the low 32 bits of
+   that: glibc), GMP's readers as in PolModel.v. *)
 Require Import String Ascii List ZArith NArith QArith Bool.
 Require Import MPSV.PolFile.Chars MPSV.PolFile.DecRatModel MPSV.PolFile.PolModel.
 Import ListNotations.
@@ -107,7 +109,7 @@ Definition read_v2 (toks : list text) : v2_result :=
     match toks1 with
     | [] => V2_error V2E_precision
     | tp :: toks2 =>
-    match scan_int tp with
+    match scan_long tp with
     | None => V2_error V2E_precision
     | Some p =>
     match toks2 with
